@@ -5,10 +5,12 @@ PRELUDE = "#![allow(unused, non_snake_case, non_camel_case_types, dead_code, cli
 BOUND_KINDS = ("greater", "greater_or_equal", "less", "less_or_equal")
 
 
-def num_lit(fam, b):
-    """abstract bound position -> concrete literal (1,2,3 -> 5,6,7)."""
-    v = 4 + b
-    return ("%d.0" % v) if fam == "float" else str(v)
+def num_lit(fam, b, us=False, offset=0):
+    """abstract bound position -> concrete literal (1,2,3 -> 5,6,7); with digit separators when `us`;
+    every bound of a declaration that uses a separator is offset by 1000 so that the order is kept"""
+    v = 4 + b + offset
+    text = ("%d_%03d" % (v // 1000, v % 1000)) if us and v >= 1000 else str(v)
+    return (text + ".0") if fam == "float" else text
 
 
 def ident_closure(fam, ty):
@@ -55,7 +57,8 @@ def render_val_item(src, it, items, consts):
         if w in ("len_char_min", "len_char_max") or fam in ("string", "any"):
             lit, cty = str(it["b"]), "usize"
         else:
-            lit, cty = num_lit(fam, it["b"]), src["ty"]
+            off = 1000 if any(v.get("sp") == "lit_us" for b_ in src["blocks"] for v in b_["val"]) else 0
+            lit, cty = num_lit(fam, it["b"], us=(it["sp"] == "lit_us"), offset=off), src["ty"]
         if fam == "any":
             cty = "usize"
         if it["sp"] == "expr":
